@@ -15,8 +15,8 @@ Line protocol shared by svdriver_c02 and svdriver_c15 (both models live in SV.Mo
   ls <hexpath>     -> <hexname>:<t>,... | - | noent
   xattr <hexpath> <hexname> -> v=<hex> | nodata
   prefetch <cfg> <threshold> <chunk> <pchunk> <blobok 0|1> <ok|fail>
-                                            -> <ok|failed> waiter=<0|1> call=<o>:<s>|none stored=<ids>
-  bgfetch <ok|fail>                         -> <ok|failed> stored=<ids>
+                                            -> ok waiter=<0|1> call=<o>:<s>|none stored=<ids> | failed waiter=.. call=..
+  bgfetch <ok|fail>                         -> ok stored=<ids> | failed
   wait <d|t|o ...|->                        -> nil|timedOut|blocked closed=<0|1>
 ids are `fi:off:size` sorted by (fi, off).
 -/
@@ -273,14 +273,17 @@ def step (s : St) : List String → St × String
       let call := match ls'.cacheCalls.drop ncalls with
         | (o, sz) :: _ => s!"{o}:{sz}"
         | [] => "none"
+      -- what a failed walk managed to store is not predicted (the Go walk is concurrent): the harness resyncs
+      let stored := if r = .ok then s!" stored={showIds (s.changed s.ls.cache ls'.cache)}" else ""
       ({ s with ls := ls' },
-        s!"{if r = .ok then "ok" else "failed"} waiter={b2s ls'.waiterClosed} call={call} stored={showIds (s.changed s.ls.cache ls'.cache)}")
+        s!"{if r = .ok then "ok" else "failed"} waiter={b2s ls'.waiterClosed} call={call}{stored}")
     | _, _, _, _, _ => (s, "bad-op")
   | ["bgfetch", u] =>
     match parseU? u with
     | some u =>
       let (ls', r) := backgroundFetch s.layer s.env (s.under u) s.ls
-      ({ s with ls := ls' }, s!"{if r = .ok then "ok" else "failed"} stored={showIds (s.changed s.ls.cache ls'.cache)}")
+      let stored := if r = .ok then s!" stored={showIds (s.changed s.ls.cache ls'.cache)}" else ""
+      ({ s with ls := ls' }, s!"{if r = .ok then "ok" else "failed"}{stored}")
     | none => (s, "bad-op")
   | ["wait", evs] =>
     let parsed : Option (List WEvent) :=
